@@ -21,6 +21,7 @@ from . import discovery_common as dc
 
 KINDS = {"BANNER": "banner", "BACKGROUND": "background", "CDTITLE": "cdtitle", "JACKET": "jacket", "CDIMAGE": "cdimage", "MUSIC": "music"}
 VALUES = [("absent", None, None), ("empty", None, None), ("value", None, "Banner.PNG"), ("value", None, "missing.png"),
+          ("value", None, "cover [hd].PNG"), ("value", None, "cover[xyz].png"),
           ("value", "img", "b.PNG"), ("value", "img", "nope.png"), ("value", "missing", "b.png")]
 
 
@@ -141,6 +142,7 @@ def s2c_banner_job(job):
 AVOCAB = ["banner.png", "Banner.PNG", "xbn.png", "bn.txt", "BANNER.JPG", "bnx.png", "jk_a.png", "JK_b.gif", "ajk_.png", "a-cd.png", "a-CD.PNG", "a-cdx.png",
           "a disc.png", "my title.png", "song.ogg", "SONG.MP3", "song.ogx", "bg.jpg", "song-bg.PNG", "background.bmp", "x cdtitle y.gif", "CDTitle.png",
           "Artist - Song ver.2 bn.png", "Vol.3-cd.png", "Dr. Who jacket.png", "songbn.old.png", "songbg.orig.jpg", "a.b.c.ogg", "jk_.x.png", "cdtitle.v2.gif",
+          "banner-bg.png", "Song Jacket-CD.PNG", "cdtitle bn.png", "jk_albumbg.jpg", "Banner.OGG", "Cover [HD].png", "track[1].ogg", "track1.ogg", "logoa.png", "what?.png", "star*.png",
           "jacket.png", "AlbumArt.jpeg", "albumart", "readme.txt", "song.sm", ".hidden", "noext", "music.wav.bak", "tune.oga"]
 
 
@@ -164,7 +166,7 @@ def c2s_job(job):
         elif r < 0.35:
             values.append(("empty", None, None))
         elif r < 0.7:
-            base = rng.choice(listing) if listing and rng.random() < 0.7 else rng.choice(AVOCAB)
+            base = rng.choice(listing) if listing and rng.random() < 0.7 else rng.choice(AVOCAB + ["logo[ab].png", "track[1].ogg", "cover [hd].png", "wh?t?.png"])
             values.append(("value", None, base.swapcase() if rng.random() < 0.6 else base))
         else:
             d = rng.choice(["img", "Gfx", "missing", "IMG"])
